@@ -130,6 +130,12 @@ def case(draw):
         else:
             fields.append(M.Field(fnames[1], 1, M.Arr(vt, draw(st.integers(1, 3)))))
         decls.append(M.Struct(msg, fields))
+    # a copy/paste slip: two fields of the message carry the same id (accepted by the front end and the verifier)
+    msg_struct = [d for d in decls if isinstance(d, M.Struct) and d.name == msg][0]
+    if len(msg_struct.fields) >= 2 and draw(st.integers(0, 4)) == 0:
+        i, j = draw(st.lists(st.integers(0, len(msg_struct.fields) - 1), min_size=2, max_size=2, unique=True))
+        msg_struct.fields[j].fid = msg_struct.fields[i].fid
+        info["duplicate_field_id"] = True
     mid = draw(st.integers(0, 2047))
     impl_fields = [("id", mid), ("device", "ecu")]
     if draw(st.booleans()):
@@ -297,6 +303,8 @@ def run_shard(ctx: Ctx) -> None:
                 cl.append("just_over")
         else:
             cl += ["fits", "place_" + info["place"]]
+        if info.get("duplicate_field_id"):
+            cl.append("duplicate_field_id")
         rec.cls(*cl)
         text = printer.to_text(s)
         if size is None or size > 64:
